@@ -168,6 +168,9 @@ CallEnd(ev) ==
                                      ELSE IF i \in argR THEN [live |-> TRUE, blks |-> rs[i].blks \cap LiveIds(heap), key |-> rs[i].key]
                                      ELSE rs[i]]
      IN
+       \* an initialising function needs a variable that is not live (a second init would orphan the first block)
+       /\ (sg.life \in {"+", "+?"}) => (IF IsZ(ks[1]) THEN ~zs[ev.a[1]].live ELSE IF IsQ(ks[1]) THEN ~qs[ev.a[1]].live
+                                           ELSE IF IsF(ks[1]) THEN ~fs[ev.a[1]].live ELSE ~rs[ev.a[1]].live)
        \* inputs must be live variables
        /\ \A k \in 1..n : /\ (IsIn(ks[k]) /\ IsZ(ks[k])) => zs[ev.a[k]].live
                           /\ (IsIn(ks[k]) /\ IsQ(ks[k])) => qs[ev.a[k]].live
@@ -184,6 +187,10 @@ CallEnd(ev) ==
                /\ \A c \in chZ : c.live = 1 => WFZ(c, heap)
                /\ \A c \in chQ : c.live = 1 => WFZ(c.n, heap) /\ WFZ(c.d, heap)
                /\ \A c \in chF : c.live = 1 => WFF(c, heap)
+               \* every live variable -- reported as changed or not -- still owns a live block of its allocation after the call
+               /\ tainted \/ ( /\ \A i \in DOMAIN zs1 : zs1[i].live => <<zs1[i].blk, zs1[i].al * 8>> \in heap
+                               /\ \A i \in DOMAIN qs1 : qs1[i].live => <<qs1[i].n.blk, qs1[i].n.al * 8>> \in heap /\ <<qs1[i].d.blk, qs1[i].d.al * 8>> \in heap
+                               /\ \A i \in DOMAIN fs1 : fs1[i].live => \E b \in heap : b[1] = fs1[i].blk /\ b[2] >= (fs1[i].prec + 1) * 8 )
                \* a returned string occupies exactly strlen+1 bytes
                /\ (sg.r = "STR" /\ ev.ret.blk # -2) => <<ev.ret.blk, Len(ev.ret.s) + 1>> \in heap
                \* heap accounting: no temporary survives, nothing leaked, nothing owned twice
